@@ -6,6 +6,7 @@ import FastgoModel.Writer.Tokens
 import FastgoModel.Proofs.HuffInstance
 import FastgoModel.Proofs.WriterWrap
 import FastgoModel.Proofs.BlockFrame
+import FastgoModel.Reader.FaithfulCheck
 /-
   Line-protocol driver of the executable models (`lake build fgmodel`).
   One case per input line, one answer line per case. Bytes travel as lowercase hex.
@@ -204,6 +205,28 @@ def answerE (pos : Nat) (carry : Bits) (out : List UInt8) (carry' : Bits) (final
         else if !blockCodesPF .strict B then "bad: a declared Huffman code is not prefix-free"
         else "bad: checkEnc rejects"
 
+
+/-! ### F: one complete session of the real Reader judged by the specification inflater (`checkFaithful`) -/
+
+def verdictStr (r : Result) : String :=
+  match r with
+  | .done o rest _ => s!"done n={o.size} restbits={rest.length}"
+  | .needMore o _ _ _ => s!"needmore n={o.size}"
+  | .corrupt o _ _ => s!"corrupt n={o.size}"
+
+def answerF (src delivered : List UInt8) (k : String) (consumed : Nat) (cut : Bool) : String :=
+  let kind : Option EndKind := if k = "EOF" then some .eof else if k = "UnexpectedEOF" then some .unexpectedEOF
+    else if k = "Corrupt" then some .corrupt else none
+  match kind with
+  | none => s!"bad: the Reader ended with {k}"
+  | some kd =>
+    if checkFaithful src delivered kd consumed cut then "ok"
+    else
+      let p := inflate .permissive [] src
+      let st := inflate .strict [] src
+      let pre := delivered.isPrefixOf p.out.toList
+      s!"bad: Reader ended with {k} after {delivered.length} bytes (prefix-of-spec-output={pre}), consumed={consumed} cut-of-valid={cut}; spec permissive: {verdictStr p} (consumed-at-eof={consumedAtEOF src p}); strict: {verdictStr st}"
+
 /-! ### containers and checksums -/
 
 def hexL (bs : List UInt8) : String := if bs.isEmpty then "-" else toHex bs.toArray
@@ -318,6 +341,10 @@ def step (line : String) : String :=
     match parseBits carry, parseHex out, parseBits carry', parseHex h, parseHex x with
     | some c, some o, some c', some hh, some xx => answerE (parseNat! pos) c o c' (final = "1") hh xx
     | _, _, _, _, _ => "bad-hex"
+  | ["F", src, delivered, k, consumed, cut] =>
+    match parseHex src, parseHex delivered with
+    | some a, some b => answerF a b k (parseNat! consumed) (cut = "1")
+    | _, _ => "bad-hex"
   | ["R", size, chunks, reads, evs] =>
     let cs := (if chunks = "-" then [] else chunks.splitOn ";").filterMap parseChunk
     let rs := (reads.splitOn ",").map parseNat!
